@@ -53,9 +53,10 @@ class Prog:
         return self.sourcefile.to_fortran()
 
 
-def _interpret(sem, prog, sizes, include_locals, unwind, int_bound, intents=None):
+def _interpret(sem, prog, sizes, include_locals, unwind, int_bound, intents=None, trace_pragmas=False):
     it = Interp(sem, prog.routines, prog.modules, sizes, unwind=unwind)
     it.int_bound = int_bound
+    it.trace_pragmas = trace_pragmas
     fr = it.run_entry(prog.entry, absent=prog.absent)
     for m in prog.modules:
         it.frame = fr
@@ -75,23 +76,45 @@ def _violation(sem, it1, obs1, it2, obs2, n_def1):
             return None, None, f'sort of {l} differs'
         if not a.eq(b):
             diffs.append(a != b)
-    # PRINT output: same sequence of guarded records
-    if len(it1.outputs) != len(it2.outputs):
-        return None, None, 'number of PRINT statements executed differs structurally'
-    for (g1, v1), (g2, v2) in zip(it1.outputs, it2.outputs):
-        if len(v1) != len(v2):
-            return None, None, 'PRINT record length differs'
-        diffs.append(g1 != g2)
-        for (k1, x1), (k2, x2) in zip(v1, v2):
-            if k1 != k2:
-                return None, None, 'PRINT item kind differs'
-            if k1 == 'str':
-                if x1 != x2:
-                    diffs.append(g1)
-            elif x1.sort() != x2.sort():
-                return None, None, 'PRINT item sort differs'
-            elif not x1.eq(x2):
-                diffs.append(z3.And(g1, x1 != x2))
+    # output trace (PRINT records, and pragma annotations when traced): for every input the SEQUENCE of records whose
+    # guard holds must be the same on both sides; encoded by position (number of earlier records that were emitted)
+    o1, o2 = it1.outputs, it2.outputs
+    if o1 or o2:
+        if sem.int_mode == 'bv':
+            raise NeedIntMode('output trace positions')
+        if len(o1) * len(o2) > 900:
+            return None, None, 'output trace too long'
+        one, zero = z3.IntVal(1), z3.IntVal(0)
+
+        def positions(outs):
+            pos, acc = [], zero
+            for g, _ in outs:
+                pos.append(acc)
+                acc = acc + z3.If(g, one, zero)
+            return pos, acc
+        p1, n1 = positions(o1)
+        p2, n2 = positions(o2)
+        alive = z3.Not(it1.aborted)
+        diffs.append(n1 != n2)
+        for (g1, v1), q1 in zip(o1, p1):
+            for (g2, v2), q2 in zip(o2, p2):
+                same_slot = z3.simplify(z3.And(g1, g2, q1 == q2))
+                if z3.is_false(same_slot):
+                    continue
+                if len(v1) != len(v2) or any(k1 != k2 for (k1, _), (k2, _) in zip(v1, v2)):
+                    diffs.append(same_slot)
+                    continue
+                item = []
+                for (k1, x1), (_, x2) in zip(v1, v2):
+                    if k1 == 'str':
+                        if x1 != x2:
+                            item.append(z3.BoolVal(True))
+                    elif x1.sort() != x2.sort():
+                        item.append(z3.BoolVal(True))
+                    elif not x1.eq(x2):
+                        item.append(x1 != x2)
+                if item:
+                    diffs.append(z3.And(same_slot, z3.Or(*item)))
     d1 = list(sem.defined[:n_def1])
     d2 = list(sem.defined[n_def1:])
     assume = list(sem.ranges) + d1 + [z3.Not(it1.trap), z3.Not(it1.unwind_violation), z3.Not(it2.unwind_violation)]
@@ -100,18 +123,19 @@ def _violation(sem, it1, obs1, it2, obs2, n_def1):
     return assume, viol, None
 
 
-def check_equiv(p1, p2, sizes, include_locals=(), unwind=5, int_bound=6, timeout_ms=20000, real_ladder=('uf', 'real')):
+def check_equiv(p1, p2, sizes, include_locals=(), unwind=5, int_bound=6, timeout_ms=20000, real_ladder=('uf', 'real'),
+                trace_pragmas=False):
     """returns dict: verdict in unsat | unsat-real-only | sat | unknown | notenc | vacuous ; model ; details"""
     t0 = time.time()
     res = {'seconds': 0.0}
 
     def attempt(real_mode, int_mode='int', width=None):
         sem = Sem(real_mode, int_mode=int_mode, width=width)
-        it1, fr1, obs1 = _interpret(sem, p1, sizes, include_locals, unwind, int_bound)
+        it1, fr1, obs1 = _interpret(sem, p1, sizes, include_locals, unwind, int_bound, trace_pragmas=trace_pragmas)
         n1 = len(sem.defined)
         intents = {a.name.lower(): a.type.intent for a in p1.entry.arguments}
         try:
-            it2, fr2, obs2 = _interpret(sem, p2, sizes, include_locals, unwind, int_bound, intents)
+            it2, fr2, obs2 = _interpret(sem, p2, sizes, include_locals, unwind, int_bound, intents, trace_pragmas=trace_pragmas)
         except NotEncoded as ex:
             if any(k in str(ex) for k in ('unbound variable', 'missing actual for', 'more actual than dummy')):
                 raise _UnboundInTransformed(str(ex)) from ex
@@ -224,6 +248,7 @@ def driver_source(entry, sizes, model, tag, absent=()):
     for a in entry.arguments:
         if not isinstance(a, sym.Array) and a.type.dtype == BasicType.INTEGER:
             v = sz.get(a.name.lower(), model.get(f'in_{a.name.lower()}', 1))
+            v = v if isinstance(v, int) else 1
             it.frame.vars[a.name.lower()] = _C(it.sem.isort, it.sem.int_lit(v if isinstance(v, int) else 1))
 
     def emit(a, t, name, qual):
@@ -248,9 +273,11 @@ def driver_source(entry, sizes, model, tag, absent=()):
                     lo, hi = 1, it.concrete(it.enc(d))
                 bounds.append((lo, hi))
             arr = Arr(qual, bounds, None)
+            fixed = sz.get(qual) if isinstance(sz.get(qual), (list, tuple)) else None
             for k_, idx in enumerate(arr.index_list()):
                 key = f'in_{qual}_p{k_ + 1}'
-                init.append(f"  {name}({', '.join(map(str, idx))}) = {_lit(model.get(key, 1 if k != 'l' else False), k)}")
+                v = fixed[k_] if fixed is not None else model.get(key, 1 if k != 'l' else False)
+                init.append(f"  {name}({', '.join(map(str, idx))}) = {_lit(v, k)}")
             out.append(name)
             return bounds
         v = sz.get(qual, model.get(f'in_{qual}', 1 if k != 'l' else False))
@@ -276,10 +303,45 @@ def driver_source(entry, sizes, model, tag, absent=()):
     return decl, init, args, out
 
 
-def replay_equiv(p1, p2, sizes, model, timeout=120):
+def _pragmas_as_prints(text):
+    """replay of pragma traces: the generated code is re-parsed, every pragma in an executable part becomes a PRINT of its
+    normalised text (so that gfortran shows which annotations an execution reaches, in order); pragmas in specification
+    parts are returned as a list per routine"""
+    from loki import Frontend  # pylint: disable=import-outside-toplevel
+    from loki.ir import nodes as ir, FindNodes, Transformer  # pylint: disable=import-outside-toplevel
+    sf = Sourcefile.from_source(text, frontend=Frontend.FP)
+    spec = []
+    allr = list(sf.routines) + [r for m in sf.modules for r in m.subroutines]
+    todo = list(allr)
+    while todo:
+        r = todo.pop(0)
+        todo += list(getattr(r, 'members', ()) or ())
+        norm = lambda q: ''.join(f'!${q.keyword} {q.content or ""}'.lower().split())
+        spec.append((r.name.lower(), [norm(q) for q in FindNodes(ir.Pragma).visit(r.spec)]))
+        mapper = {}
+        for q in FindNodes(ir.Pragma).visit(r.body):
+            t = norm(q).replace("'", "''")
+            mapper[q] = ir.GenericStmt(text=f"print *, '{t}'")
+        if mapper:
+            r.body = Transformer(mapper).visit(r.body)
+    for m in sf.modules:
+        spec.append((m.name.lower(), [''.join(f'!${q.keyword} {q.content or ""}'.lower().split()) for q in FindNodes(ir.Pragma).visit(m.spec)]))
+    return sf.to_fortran(), sorted(spec)
+
+
+def replay_equiv(p1, p2, sizes, model, timeout=120, trace_pragmas=False):
     """compile original and transformed program with gfortran, run both on the model inputs, compare printed outputs.
     returns (differs: bool|None, message)"""
     outs = []
+    texts = {}
+    if trace_pragmas:
+        try:
+            (t1, s1), (t2, s2) = _pragmas_as_prints(p1.fortran()), _pragmas_as_prints(p2.fortran())
+        except Exception as ex:  # pylint: disable=broad-except
+            return None, f'pragma replay not possible: {type(ex).__name__}: {ex}'
+        if s1 != s2:
+            return True, f'pragmas in specification parts differ: {s1} vs {s2}'
+        texts = {'orig': t1, 'trans': t2}
     # the driver is derived from the ORIGINAL entry's interface (a transformation must keep the entry callable the
     # same way; its symbol table may have lost attributes such as intents or kinds)
     try:
@@ -292,7 +354,8 @@ def replay_equiv(p1, p2, sizes, model, timeout=120):
         inmod = getattr(p.entry, 'parent', None) is not None
         # gfortran rejects CONTIGUOUS on explicit-shape dummies (emitted by the stack allocators for nvfortran); the
         # attribute carries no behaviour, so it is dropped for the replay build only
-        body = p.fortran().replace(', CONTIGUOUS', '')
+        body = texts.get(tag, None) or p.fortran()
+        body = body.replace(', CONTIGUOUS', '')
         lines = ['program rp', uses.rstrip('\n') if uses else '', '  implicit none']
         lines += decl
         if is_fn:
